@@ -35,6 +35,12 @@ CHECKS.update({
     note="Trusted: TLC, Mllp.tla/MllpFrame.tla, the scripted connection object (one client chunk per read). The handler receives the payload with its final segment terminator; the check demands exactly the bytes between start block and end block, which is the frame's text plus that CR, and that it re-parses to the same ER7. Real TCP scheduling is sampled, not controlled.",
     ref="DESIGN.md §4 C16, §3.9"),
 })
+CHECKS.update({
+ "C19": dict(technique="TLA+ model of datatype_factory over the shared per-version datatype maps (Threads.tla) model-checked by TLC with and without the per-call copy; TLC behaviours forced on real threads through env-guarded yield points; preemptive stress; observations judged by the TLC trace specification ThreadsTrace",
+    text="TLC checks all interleavings of 2 and 3 factory calls: shared maps untouched, each result equal to the result alone, every call returns; with Copy = FALSE it must find the 1.3.4 interference (negative control). All 252 maximal 2-thread schedules and simulated 3-thread schedules are forced on real threads (yield points after library load, after the map copy, after the overrides, before dispatch) with the real per-version maps compared against their pristine snapshot after every step; 8 threads then run a parse/build/encode/validate/factory corpus over all versions under a 1 microsecond switch interval and every result is compared with the same call run alone.",
+    note="Trusted: TLC, Threads.tla, the scheduler in the harness. Forced switches exist only at the four yield points of datatype_factory (hook commit in /repo, guard HL7APY_VERIF); other shared-state touch points are exercised by preemptive stress only, which samples schedules.",
+    ref="DESIGN.md §4 C19, §3.11, §6"),
+})
 NOT_YET = {}
 def main():
     props = [json.loads(l) for l in open(os.path.join(HERE, "properties.jsonl"))]
@@ -62,7 +68,7 @@ def main():
         "setup_cmd": "./setup.sh",
         "hooks": {"guard": "HL7APY_VERIF", "enable": "HL7APY_VERIF=1 in the environment of the check (set by ./check); hl7apy is imported from /repo's working tree, nothing is built",
                   "baseline_off_cmd": "cd /repo && env -u HL7APY_VERIF /venv/bin/python -m pytest -q -p no:cacheprovider --timeout=900",
-                  "source_commits": [], "add_only": True},
+                  "source_commits": ["c0c81e2"], "add_only": True},
         "engines": [{"name": "tlc", "path": "/verif/spec", "serves_properties": sorted(CHECKS),
                      "kind_free_text": "explicit TLA+ specifications checked with TLC 1.8; trace specifications judge NDJSON observations of the real code; TLC-generated behaviours are replayed into the real code"}],
         "checks": checks,
